@@ -221,3 +221,15 @@ func Harness_try() {
 
 // Harness_try_small: the same check over the reduced fragment alphabet (parameter small=1).
 func Harness_try_small() { Harness_try() }
+
+// TryProgram returns a symbolic try/catch/finally program; Prelude is the lisp prelude it needs.
+func TryProgram(tag string, nest int) MalType { return tryForm(tag, nest) }
+
+const Prelude = prelude
+
+// RegisterBuiltins binds the Go builtins the try programs call (except trace!).
+func RegisterBuiltins(e EnvType) {
+	call.CallOverrideFN(e, "fail!", fail_BANG)
+	call.CallOverrideFN(e, "panic-err!", panicerr_BANG)
+	call.CallOverrideFN(e, "panic-val!", panicval_BANG)
+}
